@@ -42,7 +42,7 @@ _msg = re.compile(r'@!@!@STARTMSG (\d+):(\d+) @!@!@\n(.*?)\n?@!@!@ENDMSG \1 @!@!
 
 def run(module, cfg, *, workers=16, timeout=900, simulate=None, depth=None, seed=None, dump=None,
         coverage=True, env=None, cont=False, specdir=SPECS, extra=(), heap=None, wd=None, deadlock_off=False,
-        dfs=False):
+        dfs=False, parse_states="auto", gcthreads=None):
     """module: name of the root module (file <specdir>/<module>.tla); cfg: path or text of a config."""
     own_wd = wd is None
     wd = wd or workdir("tlc")
@@ -53,9 +53,11 @@ def run(module, cfg, *, workers=16, timeout=900, simulate=None, depth=None, seed
                 f.write(cfg)
         else:
             cfg_path = cfg if os.path.isabs(cfg) else os.path.join(specdir, cfg)
-        java = ["java", "-XX:+UseParallelGC"]
+        java = ["java", "-XX:+UseParallelGC", "-Xss64m"]
         if heap:
             java.append("-Xmx%s" % heap)
+        if gcthreads:
+            java.append("-XX:ParallelGCThreads=%d" % gcthreads)
         if dfs:
             java.append("-Dtlc2.tool.queue.IStateQueue=StateDeque")
         java += ["-DTLA-Library=" + specdir, "-cp", JAR_CP, "tlc2.TLC"]
@@ -82,6 +84,7 @@ def run(module, cfg, *, workers=16, timeout=900, simulate=None, depth=None, seed
         if env:
             e.update({k: str(v) for k, v in env.items()})
         r = Result()
+        r.parse_states = parse_states
         r.cmd = " ".join(java[-1:] + args)
         t0 = time.time()
         try:
@@ -141,12 +144,7 @@ def _parse(r):
             if m:
                 act = m.group(2)
                 am = re.match(r'(\w+) line', act)
-                st = m.group(3)
-                try:
-                    state = parse_state(st) if st.strip() else {}
-                except Exception as ex:
-                    state = {"_unparsed": st, "_err": str(ex)}
-                r.trace.append(dict(n=int(m.group(1)), action=am.group(1) if am else act, state=state))
+                r.trace.append(dict(n=int(m.group(1)), action=am.group(1) if am else act, state=None, _raw=m.group(3)))
             else:
                 m = re.match(r'(\d+): (Stuttering|Back to state.*)', text)
                 if m:
@@ -171,12 +169,24 @@ def _parse(r):
             r.traces.append([])
         if r.traces:
             r.traces[-1].append(st)
+    # states are parsed lazily: all of a short trace, only the first and last of a long one
+    for tr in r.traces:
+        idx = range(len(tr)) if (len(tr) <= 300 and getattr(r, "parse_states", "auto") == "auto") else (len(tr) - 1,)
+        for i in idx:
+            materialise(tr[i])
+        for st in tr:
+            if st["state"] is None:
+                st["state"] = {"_lazy": True}
     r.trace = r.traces[0] if r.traces else []
     if not r.generated and hasattr(r, "_progress"):
         r.generated, r.distinct = r._progress
     # classify
     v = None
-    for code, text in err_texts:
+    for code, text in msgs:
+        if "StackOverflowError" in text or "TLC threw an unexpected exception" in text or "Attempted to" in text:
+            v = dict(kind="error", name="tlc-error", text=text)
+            break
+    for code, text in ([] if v else err_texts):
         m = re.search(r'Invariant (\S+) is violated', text)
         if m:
             v = dict(kind="invariant", name=m.group(1), text=text)
@@ -206,6 +216,16 @@ def _parse(r):
             v = dict(kind="error", name="tlc-error", text="\n".join(errs)[:4000] or out[-3000:])
     r.violation = v
     r.ok = v is None and (success or getattr(r, "timed_out", False))
+
+
+def materialise(st):
+    if st.get("state") is None or st["state"].get("_lazy"):
+        raw = st.get("_raw", "")
+        try:
+            st["state"] = parse_state(raw) if raw.strip() else {}
+        except Exception as ex:
+            st["state"] = {"_unparsed": raw, "_err": str(ex)}
+    return st["state"]
 
 
 def sany(module, specdir=SPECS):
